@@ -4,7 +4,7 @@
 From BV Require Import Base.Prelude Model.Block Model.ForkDB Model.Forkable Spec.Consumer Spec.Universe
   Spec.C01_Spec Spec.C01_Moving_Spec Spec.C01_Roots_Spec Spec.C01_Wild_Spec
   Proofs.Fk.StoreFacts Proofs.Fk.WalkFacts Proofs.Fk.LoopFacts Proofs.Fk.FixedLib Proofs.Fk.MovingLibInv Proofs.Fk.WildLibInv Proofs.Fk.WildLibDisc
-  Proofs.Fk.FailPrefix Proofs.Fk.FailRun Proofs.C02_Proofs Proofs.C01_Roots_Proofs.
+  Proofs.Fk.MovingLibDisc Proofs.Fk.FailPrefix Proofs.Fk.FailRun Proofs.C02_Proofs Proofs.C01_Roots_Proofs.
 Local Open Scope N_scope.
 
 Lemma cfg_nofail_eq cfg : cfg_nofail cfg = nofail cfg.
@@ -217,4 +217,46 @@ Proof.
   - assert (Ec : nofail cfg = cfg) by (destruct cfg; cbn in Hf; subst; reflexivity). rewrite Ec in Hmono.
     destruct (c01_wild_disc_nofail cfg h Hf Hhold Hincl Hnew Hundo Hwf) as (Hlen & Hok & _ & Hd & He & Hre).
     unfold c01_statement. split; [exact Hd|]. split; [exact (Hre Hmono) | exact He].
+Qed.
+
+(* ---- the class of c01_discovery_roots_partial: before the discovery the LIB reference is empty (number 0),
+   afterwards the run is a rooted run of the old class ---- *)
+Section OldDiscMono.
+  Variable U : list block.
+  Variable cfg : config.
+  Hypothesis Hnofail : c_fail_at cfg = None.
+  Hypothesis Hnew : f_new (c_filter cfg) = true.
+  Hypothesis Hundo : f_undo (c_filter cfg) = true.
+  Hypothesis Hhold : c_hold cfg = true.
+  Hypothesis Hincl : c_incl cfg = false.
+  Hypothesis U_id : forall b, In b U -> bid b <> 0 /\ bid b <> bparent b.
+  Hypothesis U_uniq : forall x y, In x U -> In y U -> bid x = bid y -> x = y.
+  Hypothesis U_up : forall x y, In x U -> In y U -> bparent x = bid y -> bnum y < bnum x.
+  Hypothesis D_decl : forall b, In b U -> decl_none U b.
+
+  Lemma old_disc_mono : forall h s, MovingLibDisc.PreInv U cfg s -> (forall b, In b h -> In b U) ->
+    lib_mono_b cfg s h = true.
+  Proof.
+    induction h as [|b h IH]; intros s HP Hh; [reflexivity|].
+    assert (Hb : In b U) by (apply Hh; left; reflexivity).
+    assert (Hh' : forall x, In x h -> In x U) by (intros x Hx; apply Hh; right; exact Hx).
+    assert (Hl0 : rn (libref (db s)) = 0) by (rewrite (pre_lib U cfg s HP); reflexivity).
+    cbn [lib_mono_b].
+    destruct (MovingLibDisc.pre_step U cfg Hnofail Hnew Hundo Hhold Hincl U_id U_uniq U_up D_decl s b HP Hb)
+      as [(s' & Hstep & HP' & _)|(_ & (s' & evs & a & Fin & S' & Hstep & HaU & _ & _ & HI' & _))].
+    - rewrite Hstep, Hl0. apply andb_true_iff. split; [apply N.leb_le; lia|]. apply IH; assumption.
+    - rewrite Hstep, Hl0. apply andb_true_iff. split; [apply N.leb_le; lia|].
+      apply (old_mono U (R a) cfg Hnofail Hnew Hundo U_id U_uniq U_up (R_id U U_id a HaU) (R_num U U_uniq a HaU)
+               (R_up U U_up a HaU) (R_decl U U_uniq D_decl a HaU) h s' Fin S' HI' Hh').
+  Qed.
+End OldDiscMono.
+
+Lemma c01_wild_discovery_mono_subsumes_proved : c01_wild_discovery_mono_subsumes.
+Proof.
+  intros cfg h Hhold Hincl Hnew Hundo Hscope.
+  pose proof (d2_wf h Hscope) as Hwf. split; [exact Hwf|]. rewrite cfg_nofail_eq.
+  apply (old_disc_mono h (nofail cfg) eq_refl Hnew Hundo Hhold Hincl
+           (bridge_id h Hwf) (bridge_uniq h Hwf) (bridge_up h Hwf) (bridge2_decl_none h Hscope) h (fs_init LNone)).
+  - apply pre_init.
+  - intros b Hb. exact Hb.
 Qed.
